@@ -19,7 +19,8 @@ META = {
     "up to a length bound, run through the real lexer) and of string values x literal spellings, against Python's own "
     "literal evaluation (ast.literal_eval) as reference",
     "text": "Numbers: every string of length <= 5 (thorough 6) over [0-9_.eExXoObB] and every string of length <= 4 "
-    "(thorough 5) over that alphabet plus [+-afAF] is lexed; whenever the lexer yields exactly one integer/float token the "
+    "(thorough 5) over that alphabet plus [+-afAF], and every string of length <= 4 (thorough 5) over four non-ASCII "
+    "decimal digits plus [1.e_], is lexed; whenever the lexer yields exactly one integer/float token the "
     "token must span the spelling, Python must accept the spelling as a literal of the same type and the converted value "
     "must be bit-identical to Python's; a deterministic stride of those spellings is additionally evaluated through "
     "compile_expression.  Boundary integers in decimal/binary/octal/hex with every single-underscore placement and "
@@ -38,6 +39,9 @@ META = {
 
 NUM_ALPHA = "0123456789_.eExXoObB"
 EXT_ALPHA = NUM_ALPHA + "+-afAF"
+# non-ASCII decimal digits (Devanagari 2 and 5, fullwidth 1, Arabic-Indic 3) mixed with the ASCII number characters:
+# int()/float() accept them, Python's literal grammar does not
+UNI_ALPHA = "\u0968\u096b\uff11\u0663" + "1.e_"
 _BASE_SET = frozenset(NUM_ALPHA)
 
 _digits = re.compile(r"[0-9]+")
@@ -197,7 +201,7 @@ def num_shard(arg):
     alpha_name, prefix, maxlen, stride_from, stride = arg
     from jinja2 import Environment
 
-    alpha = NUM_ALPHA if alpha_name == "base" else EXT_ALPHA
+    alpha = {"base": NUM_ALPHA, "ext": EXT_ALPHA, "uni": UNI_ALPHA}[alpha_name]
     wrapped = alpha_name == "base"
     p = core.Part()
     env = Environment()
@@ -206,7 +210,7 @@ def num_shard(arg):
     for n in lengths:
         for tail in itertools.product(alpha, repeat=n - len(prefix)):
             s = prefix + "".join(tail)
-            if alpha_name == "ext" and _BASE_SET.issuperset(s):
+            if alpha_name != "base" and _BASE_SET.issuperset(s):
                 continue  # already covered by the base alphabet at a larger bound
             p.evals += 1
             if n >= stride_from:
@@ -555,8 +559,9 @@ def run(ctx: core.Ctx):
         "every one-number spelling over the extended alphabet goes through compile_expression (no stride)",
         "adjacent-literal spellings are evaluated under the default newline_sequence only; values of length 4 (thorough) "
         "get the quick tier's separator set and two newline sequences",
-        "backslash-newline continuation inside a literal (with LF, CRLF and CR in the source) is checked under the default "
-        "newline_sequence only: under a non-default one the raw line break is first rewritten to newline_sequence "
+        "out of scope: backslash-newline continuation under a non-default newline_sequence.  It is checked (with LF, CRLF "
+        "and CR in the source) under the default newline_sequence, for which the property's 'exactly that value' is "
+        "stated; under a non-default one the raw line break is first rewritten to newline_sequence "
         "(CALIBRATED rule above), so 'a\\<LF>b' evaluates to 'a' + backslash + newline_sequence + 'b' there",
         "backslash followed by a character that is not a Python escape (deprecated 'invalid escape sequence') is not enumerated",
         "integer literals longer than sys.get_int_max_str_digits() are out of scope",
@@ -566,6 +571,9 @@ def run(ctx: core.Ctx):
     shards += [("base", a + b, base_len) + base_stride for a in NUM_ALPHA for b in NUM_ALPHA]
     shards += [("ext", c, ext_len) + ext_stride for c in EXT_ALPHA]
     shards += [("ext", a + b, ext_len) + ext_stride for a in EXT_ALPHA for b in EXT_ALPHA]
+    uni_len = 4 if quick else 5
+    shards += [("uni", c, uni_len) + ext_stride for c in UNI_ALPHA]
+    shards += [("uni", a + b, uni_len) + ext_stride for a in UNI_ALPHA for b in UNI_ALPHA]
     ctx.pmap(num_shard, shards)
     n_numbers = ctx.counters.get("read_as_one_number", 0)
     if n_numbers < 1000:
@@ -587,6 +595,7 @@ def run(ctx: core.Ctx):
     ctx.cov["bounds"] = {
         "number_alphabet": NUM_ALPHA, "number_max_len": base_len,
         "extended_alphabet": EXT_ALPHA, "extended_max_len": ext_len,
+        "non_ascii_digit_alphabet": ascii(UNI_ALPHA), "non_ascii_digit_max_len": uni_len,
         "string_classes": CLASS_NAMES, "string_max_len": str_len, "newline_sequences": nl_seqs,
         "boundary_ints": [str(v) for v in INT_VALUES], "boundary_floats": len(float_values()) + len(EXTRA_FLOATS),
     }
